@@ -945,12 +945,11 @@ void ep_mul_sim_gen(ep_t r, const bn_t k, const ep_t q, const bn_t m) {
 
 void ep_mul_sim_dig(ep_t r, const ep_t p[], const dig_t k[], int n) {
 	ep_t t;
-	int max;
+	int max = 0;
 
 	ep_null(t);
 
-	max = util_bits_dig(k[0]);
-	for (int i = 1; i < n; i++) {
+	for (int i = 0; i < n; i++) {
 		max = RLC_MAX(max, util_bits_dig(k[i]));
 	}
 
